@@ -60,8 +60,10 @@ class PacketParser:
     def unparse(self, decompressed_fields: List[Tuple[str, Buffer]]) -> List[Tuple[str, Buffer]]:
         unparsed_fields: List[Tuple[str, Buffer]] = []
         for parser in self.parsers:
-            parser_fields = [f for f in decompressed_fields if parser.name in f.id]
+            parser_fields = [f for f in decompressed_fields if parser.name in f[0]]
             unparsed_fields.extend(parser.unparse(parser_fields))
+        # fields that belong to no header (the payload) are kept as they are
+        unparsed_fields.extend([f for f in decompressed_fields if not any(parser.name in f[0] for parser in self.parsers)])
         return unparsed_fields
 
 
